@@ -483,9 +483,17 @@ def check(run):
             if isinstance(st, ast.Call) and isinstance(st.func, ast.Attribute) and st.func.attr == "update" and st.args:
                 tgt, src = ast.unparse(st.func.value), ast.unparse(st.args[0])
                 if "._cache" in tgt and "._cache" in src and tgt.split("._cache")[0] != src.split("._cache")[0]:
-                    ok = spec in MEMO_HANDOVER_OK
-                    run.instance("R3", f"{f.module.rel}:{st.lineno} {f.qualname}", f"hands memo entries from `{src}` to `{tgt}`: {MEMO_HANDOVER_OK.get(spec, 'not reviewed')}", ok)
-                    if not ok:
+                    # the review covers the hand-over of the object's OWN memo (`<self>._cache...`): the memo of a sub-object (the visual's
+                    # generated colours are writable arrays that are meant to be edited in place) is another matter
+                    own = bool(f.params) and src.split("._cache")[0] == f.params[0] or spec == "trimesh.primitives:Box._create_mesh"
+                    ok = spec in MEMO_HANDOVER_OK and own
+                    run.instance("R3", f"{f.module.rel}:{st.lineno} {f.qualname}", f"hands memo entries from `{src}` to `{tgt}`: {MEMO_HANDOVER_OK.get(spec, 'not reviewed') if own else 'memo of a sub-object: not reviewed'}", ok)
+                    if not ok and spec in MEMO_HANDOVER_OK:
+                        run.violation("R3", f"{f.module.rel}:{st.lineno} {f.qualname}",
+                                      f"`{ast.unparse(st)[:90]}` hands the memo of `{src.split('._cache')[0]}` to the copy: unlike the mesh's own memo (read-only arrays) these entries "
+                                      f"are writable and are edited in place by design (generated colours), so an edit on either object shows up in the other",
+                                      key=key_of("C17-R3", spec, src.split("._cache")[0]))
+                    elif not ok:
                         run.violation("R3", f"{f.module.rel}:{st.lineno} {f.qualname}",
                                       f"`{ast.unparse(st)[:80]}` shares the original's memoised objects with another object: cached values that are "
                                       f"not read-only arrays (views, graphs, lists) are then mutable state common to both",
